@@ -145,7 +145,7 @@ fn run(bound: usize) {
     let state_store = GlobalState { rules: [Arc(&store[0]), Arc(&store[1]), Arc(&store[2]), Arc(&store[3])], n, io_params: IoParams };
     unsafe {
         let state: Arc<GlobalState> = Arc(&state_store);
-        kani::block_on(process_request(ContextRef, state));
+        run_ready(process_request(ContextRef, state));
 
         // ---- expected decision, computed from the PROPERTY statement: first rule, in order, whose filter is true
         let mut first: Option<usize> = None;
@@ -214,4 +214,10 @@ fn process_request_cover() {
     unsafe { kani::cover!(N_ON_FINISH == 1); kani::cover!(N_ON_ERROR == 1 && N_CONNECT == 0); kani::cover!(N_ON_ERROR == 1 && N_ON_CONNECT == 1); }
 }
 
+/// every stub future is immediately ready, so the task completes within one poll (cheaper than kani::block_on's loop)
+pub fn run_ready<F: std::future::Future>(f: F) -> F::Output {
+    let mut f = std::pin::pin!(f);
+    let mut cx = std::task::Context::from_waker(std::task::Waker::noop());
+    match f.as_mut().poll(&mut cx) { std::task::Poll::Ready(v) => v, std::task::Poll::Pending => panic!("stub future pending") }
+}
 fn main() {}
